@@ -43,16 +43,30 @@ def _make_scripted(pulp):
             super().__init__(msg=False)
             self.script = list(script or [])
             self.calls = 0
+            self.requests = -1  # index of the request being served (see begin)
+            self.used = []  # per request: the behaviours its solver calls met
             self.real = pulp.PULP_CBC_CMD(msg=False)
+
+        def begin(self):
+            """a new request (one dot-bracket asked for) starts: its first solver call meets the step's behaviour,
+            further calls within the same request (an implementation may solve in parts or retry) meet the step's
+            'later' behaviours in turn (default: the same behaviour again)"""
+            self.requests += 1
+            self.used.append([])
 
         def available(self):
             return True
 
         def actualSolve(self, lp, **kw):
-            if self.calls < len(self.script):
-                beh, varmode = self.script[self.calls]
-            else:
-                beh, varmode = self.script[-1]
+            step = self.script[min(max(self.requests, 0), len(self.script) - 1)]
+            beh, varmode = step[0], step[1]
+            later = step[2] if len(step) > 2 and step[2] else None
+            if not self.used:
+                self.used.append([])
+            k = len(self.used[-1])
+            if k >= 1 and later:
+                beh = later[(k - 1) % len(later)]
+            self.used[-1].append(beh)
             self.calls += 1
             if beh == "ok":
                 return self.real.actualSolve(lp)
@@ -124,6 +138,7 @@ def _run_cell(seq, pairs, config, script, via):
             raise HarnessError(config)
         for _ in script:
             b = common.BpSeq.from_string(text)
+            shared.begin()
             if via == "property":
                 results.append(b.dot_bracket)
             else:
@@ -131,7 +146,7 @@ def _run_cell(seq, pairs, config, script, via):
                 results.append(b.convert_to_dot_bracket(solver))
     finally:
         pulp.HiGHS_CMD, pulp.LpSolverDefault = saved
-    return results, shared.calls
+    return results, shared.used
 
 
 def _judge(tag, db, beh, seq, pairs, fcfs_structure, st, g, opt):
@@ -140,7 +155,14 @@ def _judge(tag, db, beh, seq, pairs, fcfs_structure, st, g, opt):
     s = getattr(db, "structure", None)
     if not isinstance(s, str):
         return out
-    if beh != "ok":
+    if beh == "mixed":
+        # within ONE request some solver calls delivered an optimum and others did not: either the solver "could not
+        # deliver" (=> FCFS) or, after a retry, it did (=> an optimal notation); a mixture that is neither is wrong
+        if s != fcfs_structure:
+            lv = ssref.stem_levels_from_structure(s, st)
+            if opt is not None and not (lv is not None and ssref.is_proper(lv, g) and ssref.score(lv, st) >= opt):
+                out.append(D(f"C13:{tag}:partial-fault-neither-fcfs-nor-optimal", f"got {s!r}, FCFS is {fcfs_structure!r}, optimum scores {opt}"))
+    elif beh != "ok":
         if s != fcfs_structure:
             out.append(D(f"C13:{tag}:fault-not-fcfs", f"behaviour {beh}: got {s!r}, FCFS is {fcfs_structure!r}"))
     else:
@@ -164,7 +186,7 @@ def oracle(case) -> list:
 
     def cell(config, steps, via, tag):
         try:
-            results, calls = _run_cell(seq, pairs, config, steps, via)
+            results, used = _run_cell(seq, pairs, config, steps, via)
         except HarnessError:
             raise
         except Exception as exc:
@@ -173,28 +195,47 @@ def oracle(case) -> list:
             out.append(D(f"C13:{tag}:raised:{type(exc).__name__}@{loc}",
                          f"config {config} steps {steps} via {via}: {type(exc).__name__}: {str(exc)[:200]}"))
             return
-        consulted = (not knotted) or config == "none" or calls == len(steps)
-        if not consulted:
-            # the injected solver was not the one used: the fault did not happen, judge losslessness only
-            notes.append(f"{tag}: scripted solver consulted {calls}x for {len(steps)} requests")
-        for (beh, _), db in zip(steps, results):
-            faulty = config == "none" or beh not in OK_BEHAVIOURS
-            if not consulted:
+        used = list(used) + [[]] * (len(steps) - len(used))
+        for step, db, met in zip(steps, results, used):
+            if config == "none":
+                verdict = "fault"
+            elif not met:
+                # the injected solver was not asked during this request: no fault happened, judge losslessness only
+                # (a structure without crossing stems needs no solver)
+                verdict = None
+                if knotted:
+                    notes.append(f"{tag}: scripted solver not consulted for a knotted structure")
+            elif all(b in OK_BEHAVIOURS for b in met):
+                verdict = "ok"
+            elif not any(b in OK_BEHAVIOURS for b in met):
+                verdict = "fault"
+            else:
+                verdict = "mixed"
+                case["_mixed"] = case.get("_mixed", 0) + 1
+            if len(met) > 1:
+                case["_multi_call"] = True
+            if verdict is None:
                 ds = [D(d.sig.replace("C01:", "C13:"), d.what) for d in check_notation(tag, db, seq, pairs)]
             else:
-                ds = _judge(tag, db, "fault" if faulty else "ok", seq, pairs, fcfs_structure, st, g, opt)
+                ds = _judge(tag, db, verdict, seq, pairs, fcfs_structure, st, g, opt)
             out.extend(ds)
 
     for config, beh, varmode in GRID:
         for via in ("property", "convert"):
             cell(config, [(beh, varmode)], via, f"{via}:{config}:{beh}")
+    # a solver that delivers for the first call of a request and not for later ones, and the reverse (only an
+    # implementation that asks more than once per request meets the second behaviour)
+    for config in CONFIGS:
+        for first, later in (("ok", "notsolved"), ("notsolved", "ok"), ("ok", "raise"), ("infeasible", "near")):
+            for via in ("property", "convert"):
+                cell(config, [(first, "unset", [later])], via, f"{via}:{config}:{first}-then-{later}")
     for beh, dflt in BOTH_GRID:
         for via in ("property", "convert"):
             cell(f"both:{dflt}", [(beh, "unset")], via, f"{via}:highs+default-{dflt}:{beh}")
     # drawn fault sequence on one shared solver
     if script:
         cfg = script[0][0]
-        steps = [(b, v) for _, b, v in script]
+        steps = [tuple(x[1:]) for x in script]
         for via in ("property", "convert"):
             cell(cfg, steps, via, f"{via}:sequence")
     if notes and not out:
@@ -214,6 +255,12 @@ def classify(case):
         labs.append("sequence-mixes-ok-and-fault")
     for s in script:
         labs.append(f"beh:{s[1]}")
+    if len(comps) >= 2:
+        labs.append("independent-knots>=2")
+    if any(len(s) > 3 and s[3] for s in script):
+        labs.append("later-calls-of-a-request-behave-differently")
+    if case.get("_multi_call"):
+        labs.append("several-solver-calls-in-one-request")
     return bool(comps), labs
 
 
@@ -227,14 +274,25 @@ def run_shard(spec) -> ShardResult:
     from hypothesis import strategies as st
 
     res = ShardResult()
-    step = st.tuples(st.sampled_from(BEHAVIOURS), st.sampled_from(VARMODES))
+    # a step: behaviour of the first solver call of a request, how variables are left, and the behaviours that any
+    # FURTHER call within the same request meets (None: the same again) - a solver that fails only sometimes
+    step = st.tuples(st.sampled_from(BEHAVIOURS), st.sampled_from(VARMODES),
+                     st.one_of(st.none(), st.none(), st.lists(st.sampled_from(BEHAVIOURS), min_size=1, max_size=3)))
+
+    def assemble(t):
+        (seq, pairs), cfg, steps, copies = t
+        n = len(seq)
+        # the same motif again further along the strand: independent groups of crossing stems in one structure
+        pairs = [[i + c * n, j + c * n] for c in range(copies) for i, j in pairs]
+        return {"seq": seq * copies, "pairs": pairs, "script": [[cfg, b, v, l] for b, v, l in steps]}
+
     strat = st.tuples(
         st.one_of(ssref.st_structures(max_abstract=6, max_stem=4, min_abstract=2),
                   ssref.st_structures(max_abstract=3, max_stem=3, min_abstract=0)),
         st.sampled_from(CONFIGS),
         st.lists(step, min_size=1, max_size=4),
-    ).map(lambda t: {"seq": t[0][0], "pairs": [list(p) for p in t[0][1]],
-                     "script": [[t[1], b, v] for b, v in t[2]]})
+        st.sampled_from([1, 1, 2, 3]),
+    ).map(assemble)
     run_hypothesis(PROP_ID, strat, oracle, seed=spec["seed"], max_examples=spec["examples"], result=res,
                    classify=classify)
     res.extra["grid_cells_per_structure"] = 0
